@@ -142,3 +142,58 @@ neutral("c04-zip-isinstance-idiom", ["C04", "C18"], "builtins.py",
         edits=[("from ._typing import T, R, HK, LT, AnyIterable", "from ._typing import T, R, HK, LT, AnyIterable, ACloseable"),
                ("        for iterator in aiters:\n            try:\n                aclose = iterator.aclose  # type: ignore\n            except AttributeError:\n                pass\n            else:\n                await aclose()\n",
                 "        for iterator in aiters:\n            if isinstance(iterator, ACloseable):\n                await iterator.aclose()  # type: ignore\n")])
+
+# --------------------------------------------------------------------------- C06
+mutant("c06-sorted-unfix-fastpath", "C06", "builtins.py",
+       "        if key is None:\n            items: _sync_builtins.list[Any] = [item async for item in item_iter]\n",
+       "        if key is None:\n            try:\n                return _sync_builtins.sorted(iterable, reverse=reverse)  # type: ignore\n            except TypeError:\n                pass\n            items: _sync_builtins.list[Any] = [item async for item in item_iter]\n",
+       rule="R06.1", unit="builtins.sorted")
+mutant("c06-zip-inner-catches-exception", "C06", "builtins.py",
+       "            yield (*[await anext(it) for it in aiters],)\n    except StopAsyncIteration:\n        return\n",
+       "            yield (*[await anext(it) for it in aiters],)\n    except Exception:\n        return\n",
+       rule="R06.1", unit="builtins._zip_inner")
+mutant("c06-key-inside-stop-region", "C06", "heapq.py",
+       "            try:\n                head = await iterator.__anext__()\n            except StopAsyncIteration:\n                pass\n            else:\n                head_key = await key(head) if key is not None else head\n                yield cls(head, iterator, reverse, head_key, key)\n",
+       "            try:\n                head = await iterator.__anext__()\n                head_key = await key(head) if key is not None else head\n            except StopAsyncIteration:\n                pass\n            else:\n                yield cls(head, iterator, reverse, head_key, key)\n",
+       rule="R06.1", unit="heapq._KeyIter.from_iters")
+mutant("c06-accumulate-function-in-stop-region", "C06", "itertools.py",
+       "        function = _awaitify(function)\n        yield value\n        async for head in item_iter:\n            value = await function(value, head)\n            yield value\n",
+       "        function = _awaitify(function)\n        yield value\n        try:\n            while True:\n                value = await function(value, await anext(item_iter))\n                yield value\n        except StopAsyncIteration:\n            return\n",
+       rule="R06.1", unit="itertools.accumulate")
+mutant("c06-map-wraps-error", "C06", "builtins.py",
+       "            result = function(*args)\n            yield await result\n",
+       "            try:\n                result = function(*args)\n                value = await result\n            except Exception as exc:\n                raise RuntimeError('map failed') from exc\n            yield value\n",
+       rule="R06.1", unit="builtins.map")
+mutant("c06-anext-catches-runtimeerror", "C06", "builtins.py",
+       "        return await iterator.__anext__()\n    except StopAsyncIteration:\n",
+       "        return await iterator.__anext__()\n    except (StopAsyncIteration, RuntimeError):\n",
+       rule="R06.1", unit="builtins.anext")
+mutant("c06-tee-peer-broad-handler", "C06", "itertools.py",
+       "                        item = await iterator.__anext__()\n                    except StopAsyncIteration:\n                        break\n",
+       "                        item = await iterator.__anext__()\n                    except BaseException:\n                        break\n",
+       rule="R06.1", unit="itertools.tee_peer")
+mutant("c06-nolock-suppresses", "C06", "itertools.py",
+       "    async def __aexit__(self, exc_type: Any, exc_val: Any, exc_tb: Any) -> None:\n        return None\n\n\nasync def tee_peer(",
+       "    async def __aexit__(self, exc_type: Any, exc_val: Any, exc_tb: Any) -> bool:\n        return exc_type is not None\n\n\nasync def tee_peer(",
+       rule="R06.3", unit="itertools.NoLock.__aexit__")
+mutant("c06-zip-finally-returns", "C06", "builtins.py",
+       "            else:\n                await aclose()\n\n\nasync def _zip_inner(",
+       "            else:\n                await aclose()\n        return\n\n\nasync def _zip_inner(",
+       rule="R06.3", unit="builtins.zip")
+mutant("c06-pull-head-replaces", "C06", "heapq.py",
+       "        except StopAsyncIteration:\n            return False\n",
+       "        except StopAsyncIteration:\n            raise LookupError('exhausted')\n",
+       rule="R06.2", unit="heapq._KeyIter.pull_head")
+mutant("c06-zip-longest-repull-after-failure", "C06", "itertools.py",
+       "    finally:\n        await fill_iter.aclose()  # type: ignore\n        for iterator in async_iters:\n",
+       "    finally:\n        await fill_iter.aclose()  # type: ignore\n        for iterator in async_iters:\n            await anext(iterator, None)\n",
+       rule="R06.4", unit="itertools.zip_longest")
+mutant("c06-minmax-swallow-key-error", "C06", "builtins.py",
+       "            async for item in item_iter:\n                item_key = await key(item)\n",
+       "            async for item in item_iter:\n                try:\n                    item_key = await key(item)\n                except ValueError:\n                    continue\n",
+       rule="R06.1", unit="builtins._min_max")
+neutral("c06-handler-as-name", ["C06", "C04"], "builtins.py",
+        "        return await iterator.__anext__()\n    except StopAsyncIteration:\n",
+        "        return await iterator.__anext__()\n    except StopAsyncIteration as _stop:\n")
+neutral("c06-message-change", ["C06"], "itertools.py",
+        '"accumulate() of empty sequence with no initial value"', '"accumulate(): empty iterable and no initial"')
